@@ -164,6 +164,7 @@ func HarnessC12Shape() {
 		{"v.M[\"K\"]", "7", true},
 		{"v.M[\"\"]", "3", true}, // the empty string is a key like any other
 		{"v.C12Emb.Q", "6", true},
+		{"v.Q", "", false}, // a field of an embedded struct is reached through the embedded field, not promoted
 		{"v.hidden", "", false},
 		{"v.Sub.p", "", false},
 		{"v.nope", "", false},
@@ -303,6 +304,71 @@ func HarnessC12Numbers() {
 	vAssert(ok && (fo.Value == f || (fo.Value != fo.Value && f != f)), "float-keeps-its-value")
 }
 
+
+type C12PEmb struct{ Z int }
+
+// HarnessC12Embedded: structs that embed a pointer type, nil or not.
+func HarnessC12Embedded() {
+	type outer struct {
+		*C12PEmb
+		N int
+	}
+	var data map[string]any
+	var src, want string
+	switch vChoice("shape", 4) {
+	case 0:
+		data, src, want = map[string]any{"v": outer{nil, 2}}, "{{ v.N }}|{{ v.C12PEmb }}", "2|"
+	case 1:
+		data, src, want = map[string]any{"v": outer{&C12PEmb{7}, 2}}, "{{ v.N }}|{{ v.C12PEmb.Z }}", "2|7"
+	case 2:
+		data, src, want = map[string]any{"v": []any{&outer{nil, 3}}}, "{{ v[0].N }}", "3"
+	default:
+		data, src, want = map[string]any{"v": outer{&C12PEmb{7}, 2}}, "{{ v }}", ""
+	}
+	out, err := EvaluateString(src, data)
+	vCover("rendered")
+	vAssert(err == nil, "reachable-path-renders")
+	if want != "" {
+		vAssert(out == want, "value-prints-as-the-equal-literal")
+	} else {
+		// the printed object has exactly the two fields of the Go value
+		vAssert(hasSub(out, "N: 2") && hasSub(out, "C12PEmb: ") && !hasSub(out, "Z: 7, Z") && countSub(out, "Z: 7") == 1, "object-has-the-shape-of-the-go-value")
+	}
+}
+
+func countSub(s, sub string) int {
+	n := 0
+	for i := 0; i+len(sub) <= len(s); i++ {
+		if s[i:i+len(sub)] == sub {
+			n++
+		}
+	}
+	return n
+}
+
+type c12Kw struct {
+	In    int
+	Nil   string
+	True  bool
+	Else  int
+	Plain int
+}
+
+// HarnessC12Keywords: a field, map key or data key that equals a keyword up to letter case is an ordinary name.
+func HarnessC12Keywords() {
+	s := symBytesAny("s", 1)
+	v := c12Kw{In: 4, Nil: s, True: true, Else: 7, Plain: 1}
+	data := map[string]any{"v": v, "m": map[string]any{"In": 5, "False": s}, "In": 6, "Nil": s}
+	cases := [][2]string{
+		{"{{ v.In }}", "4"}, {"{{ v.Nil }}", s}, {"{{ v.True }}", "1"}, {"{{ v.Else }}", "7"}, {"{{ v.Plain }}", "1"},
+		{"{{ m.In }}", "5"}, {"{{ m.False }}", s}, {"{{ In }}", "6"}, {"{{ Nil }}", s}, {"{{ v[\"In\"] }}", "4"},
+	}
+	c := cases[vChoice("case", len(cases))]
+	out, err := EvaluateString(c[0], data)
+	vCover("rendered")
+	vAssert(err == nil, "reachable-path-renders")
+	vAssert(vEqStr(out, c[1]), "value-prints-as-the-equal-literal")
+}
 
 type c12RowA struct {
 	Title string
